@@ -514,7 +514,7 @@ func runC21(c *Ctx) {
 		}
 		key := reset
 		nOps := 12 + c.Rng.Intn(25)
-		reblock := c.Rng.Intn(3) == 0 // only some cases re-save a block (the recorded stale-header class)
+		reblock := c.Rng.Intn(2) == 0 // half of the cases re-save stored blocks with other witness/SupLinks
 		saved := map[int]bool{}
 		for j := 0; j < nOps; j++ {
 			b := 1 + c.Rng.Intn(nb)
